@@ -6,5 +6,6 @@ INVARIANT DomainsOK
 INVARIANT ValueRoundTrip
 INVARIANT PreservesBytes
 INVARIANT MutationEncodesNewContent
+INVARIANT MutationLaw
 INVARIANT LhVariantSound
 CHECK_DEADLOCK FALSE
